@@ -25,6 +25,7 @@ THEOREMS = ["JanetModel.Props.C12." + t for t in (
     "op_eq_den", "capLoad_restores", "opMatcher_eq_denMatcher", "entry_points_op_eq_den",
     "never_reads_outside", "den_never_reads_outside", "match_attempt_never_reads_outside", "depth_balanced", "depth_exhaustion",
     "find_all_agrees_with_repeated_match", "find_agrees_with_repeated_match", "find_first_error",
+    "replace_all_agrees_with_repeated_match", "replace_agrees_with_repeated_match", "match_attempt_end_in_range",
     "lenprefix_leak_breaks_op_eq_den", "decode_sizes_agree")]
 # facts about the CURRENT peg.c (Gen/Peg.lean) that the model relies on; they fail to check on a tree with the defects
 TIE = ["JanetModel.Peg.Tie." + t for t in (
